@@ -203,6 +203,32 @@ Example C10_example_validate :
   x_err (fst (alb_validate 2 (mkEnv [("UpdateFrequency", TokInt 3)] [("centers", [TokInt 1; TokInt 1])] []))) = true.
 Proof. vm_compute. repeat split. Qed.
 
+(* Round 5.  OPES kernel widths and neighbour-list parameters, rmsd reference positions, the ebMeta target
+   distribution: an accepted configuration has positive kernel widths (without adaptiveSigma), neighbour-list parameters
+   in their admissible region, as many reference positions as atoms (>= 1), and a target distribution all of whose values
+   are positive once processed (the hills are scaled by its inverse), no expandBoundaries and a readable file. *)
+Theorem C10_accepted_configuration_invariants_2 :
+  (forall n e, x_err (fst (opes_sigma_nlist_validate n e)) = false ->
+     let '(sg, np) := snd (opes_sigma_nlist_validate n e) in
+     (eflag e "adaptiveSigma" false = false -> forallb (fun q => Qltb Q0 q) sg = true) /\
+     (forall p0 p1, np = [p0; p1] -> Qle_bool p0 (1 # 1) = false /\ Qle_bool p1 Q0 = false /\ Qle_bool (116 # 100) p1 = false /\
+                                     Qltb (((116 # 100) - p1) * ((116 # 100) - p1) * p0) (1 # 1) = false)) /\
+  (forall g inline file, x_err (fst (rmsd_validate g inline file)) = false ->
+     snd (rmsd_validate g inline file) = g /\ (1 <= g)%nat) /\
+  (forall expand file e, x_err (fst (ebmeta_validate expand file e)) = false ->
+     forallb (fun q => Qltb Q0 q) (snd (ebmeta_validate expand file e)) = true /\ expand = false /\ file <> None).
+Proof. exact (conj opes_sigma_nlist_accept (conj rmsd_accept ebmeta_accept)). Qed.
+Print Assumptions C10_accepted_configuration_invariants_2.
+
+(* "never allocates unboundedly from an unchecked size": every size that the model computes from user input (grid points
+   from boundaries and widths, histogramRestraint bins, scripted vector size, capacity of the correlation histories) goes
+   through a guard, and whatever the input an ACCEPTED size is at most 3 * INT_MAX elements. *)
+Theorem C10_allocation_sizes_bounded : forall host dims mult hr scripted rof c,
+  1 <= mult <= int_max ->
+  Forall (fun a => as_accepted a = true -> as_elements a <= 3 * int_max) (alloc_sites host dims mult hr scripted rof c).
+Proof. exact alloc_sites_bounded. Qed.
+Print Assumptions C10_allocation_sizes_bounded.
+
 (* Module-level residue of a rejected configuration: the queue of auto-generated configuration (extra_conf: the
    harmonicWalls blocks that the legacy lowerWall/upperWall keywords of a variable append, also when that variable is then
    rejected).  With the clear() at the start of parse_config: (1) the outcome of a configuration does not depend on
